@@ -433,7 +433,9 @@ def run(ctx):
             r = ctx.tlc("Stepper", CFG_EMIT_ONLY, label="%s deviated expectations (%s)" % (kind, known_dev),
                         constants=c3, workers=4)
             for c in r.cases:
-                if not c["canonical"]:
+                # the deviation shows on this history if the deviated specification leaves the canonical
+                # state at any point (not only at the end: a later restart hides it again)
+                if not c["canonical"] or any(not h["canon"] for h in c["hist"]):
                     trigger[hist_key(c)] = c
         for c in strict.cases:
             all_jobs.append((c, known_dev if hist_key(c) in trigger else None))
